@@ -44,9 +44,21 @@ fn snapshot(dir: &Path) -> BTreeMap<Vec<u8>, String> {
 /// what must not change when a command line is rejected: the tree `t`, the reference file and the
 /// trace file an executed command would leave (non-empty: an output file that -fprint merely
 /// creates while the expression is parsed is not an action)
-fn watched(cwd: &Path) -> String {
+fn watched(cwd: &Path) -> String { watched_but(cwd, &[]) }
+
+/// … leaving out the files the command line names as output files of -fprint/-fprint0/-fprintf/-fls: they
+/// are opened (created or truncated) while the expression is parsed, as GNU find does, which is not an
+/// action on the tree even when a damaged command line happens to name an existing file
+fn watched_but(cwd: &Path, args: &[String]) -> String {
+    let mut skip: Vec<Vec<u8>> = vec![];
+    for w in args.windows(2) {
+        if matches!(w[0].as_str(), "-fprint" | "-fprint0" | "-fprintf" | "-fls") {
+            if let Some(rel) = w[1].strip_prefix("t/") { skip.push(rel.as_bytes().to_vec()); }
+        }
+    }
     let mut s = String::new();
     for (k, v) in snapshot(&cwd.join("t")) {
+        if skip.contains(&k) { continue; }
         s.push_str(&format!("{}={v};", hex(&k)));
     }
     s.push_str(&format!("ref={};trace={}", cwd.join("ref").exists(), std::fs::metadata(cwd.join("trace")).map(|m| m.len() > 0).unwrap_or(false)));
@@ -265,7 +277,7 @@ fn ext_of(cwd: &Path, ws: &[String]) -> String {
 
 fn observe(ctx: &Ctx, cwd: &Path, args: &[String]) -> String {
     // the words must not make find read the harness' standard input
-    let before = watched(cwd);
+    let before = watched_but(cwd, args);
     let old = std::env::current_dir().unwrap();
     std::env::set_current_dir(cwd).unwrap();
     let a2: Vec<String> = args.to_vec();
@@ -275,7 +287,7 @@ fn observe(ctx: &Ctx, cwd: &Path, args: &[String]) -> String {
     });
     std::env::set_current_dir(old).unwrap();
     let o = find_inproc(&ctx.tmp.join("stderr11"), args, std::time::SystemTime::now(), Some(cwd));
-    let after = watched(cwd);
+    let after = watched_but(cwd, args);
     if verdict == "panic" || o.code.is_none() {
         return "panic".into();
     }
